@@ -279,7 +279,7 @@ def _isreal_finite(v):
         return False
 
 
-def analyse(sysm, M, bvec, recs, nreset, final_energy=None, fresh_always=False):
+def analyse(sysm, M, bvec, recs, nreset, final_energy=None):
     """Re-evaluate every record with the dense model; checks value/gradient consistency, monotone
     energy, reset behaviour.  M: matrix of the system actually solved, bvec: its rhs.
     Adds to each record: gn, ginf, E, S (gradient slack), SV (value slack)."""
@@ -319,7 +319,7 @@ def analyse(sysm, M, bvec, recs, nreset, final_energy=None, fresh_always=False):
                 it += 1
             # a 'final' record (CG returned an energy the controller never saw) is one more step
             stepno = it if r["call"] == "check" else it + 1
-            fresh = fresh_always or (stepno % nreset == 0)
+            fresh = stepno % nreset == 0
         if fresh:
             D = cm * normF * nxk + U * ngr
         else:
@@ -357,6 +357,7 @@ def analyse(sysm, M, bvec, recs, nreset, final_energy=None, fresh_always=False):
         # not demanded of later steps (they are steered by round-off noise)
         if ngt <= 8.0 * Sg:
             past_floor = True
+        r["floor_reached"] = past_floor
         prev = r
     return rows
 
@@ -502,7 +503,7 @@ def check_cg(rec):
     if status == ERROR:
         # a controller with an unattainable tolerance forces CG to iterate on round-off noise after numerical
         # convergence, where it may break down (curv == 0 / alpha < 0) - an ERROR report, not a convergence claim
-        require(last["past_floor"], "error_on_hpd",
+        require(last["floor_reached"], "error_on_hpd",
                 f"ConjugateGradient returned ERROR on an HPD system after {last['it']} iterations, "
                 f"|Ax-b| = {last['gn']:.3e} (slack {last['S']:.3e})")
         require(all(r["status"] == CONTINUE for r in rows if r["call"] != "final"), "status_mismatch", "")
@@ -597,7 +598,7 @@ def check_krylov(rec):
     classes = ["complex" if sysm.cplx else "real", "prec_" + sysm.pkind, f"steps_{len(rows) - 1}"]
     if status != CONVERGED:
         # forced iteration on round-off noise after numerical convergence may break down (curv == 0)
-        require(status == ERROR and last["past_floor"], "error_on_hpd",
+        require(status == ERROR and last["floor_reached"], "error_on_hpd",
                 f"status {status} after {last['it']} iterations, |Ax-b| = {last['gn']:.3e}")
         classes.append("error_past_floor")
     x0 = rows[0]["x"]
@@ -630,7 +631,7 @@ def check_krylov(rec):
         classes.append("reset_hit")
     if last["call"] == "final":
         classes.append("stop_cg_zero_residual")
-    if last["past_floor"]:
+    if last["floor_reached"]:
         classes.append("reached_roundoff_floor")
     classes.append(f"compared_{compared}")
     nontrivial = compared >= 3 and sysm.n >= 4 and len(gains) > 3 and gains[3] < gains[2] < gains[1]
@@ -824,6 +825,7 @@ def check_status(rec):
 
 # ------------------------------------------------------------------ strategies
 SEED = st.integers(0, 2 ** 31 - 1)
+EXPONENTS = [20, 12, 30, 8, 24, 16, 36, 5, 44, 2, 28, 40, 1]     # tolerances 2^-e
 
 
 @st.composite
@@ -857,8 +859,9 @@ def vector(draw, n, cplx, nonzero=False):
 
 
 @st.composite
-def system(draw, nmax, cmax, allow_bnone=False, force_prec=None):
-    n = draw(st.one_of(st.integers(1, min(6, nmax)), st.integers(1, nmax), st.integers(min(nmax, 12), nmax)))
+def system(draw, nmax, cmax, allow_bnone=False, force_prec=None, nmin=1):
+    n = draw(st.one_of(st.integers(nmin, max(nmin, min(6, nmax))), st.integers(nmin, nmax),
+                       st.integers(min(nmax, 12), nmax)))
     cplx = draw(st.booleans())
     le = draw(spectrum(n, cmax))
     ls = draw(st.integers(-3, 3))
@@ -867,10 +870,10 @@ def system(draw, nmax, cmax, allow_bnone=False, force_prec=None):
         hh = [draw(SEED)]
     vc = cplx or draw(st.integers(0, 3)) == 0       # real matrix with complex vectors as well
     b = draw(vector(n, vc, nonzero=True))
-    x0 = None if draw(st.integers(0, 2)) == 0 else draw(vector(n, vc))
-    if allow_bnone and x0 is not None and draw(st.integers(0, 11)) == 0:
+    x0 = None if draw(st.integers(0, 2)) == 2 else draw(vector(n, vc))
+    if allow_bnone and x0 is not None and draw(st.integers(0, 15)) == 15:
         b = None
-    pk = draw(st.sampled_from([None, None, "hpd", "hpd", "jacobi", "exact"])) if force_prec is None else force_prec
+    pk = draw(st.sampled_from(["hpd", None, "jacobi", "exact", None, "hpd"])) if force_prec is None else force_prec
     prec = None
     if pk == "hpd":
         prec = {"kind": "hpd", "le": draw(spectrum(n, 6)), "ls": draw(st.integers(-2, 2)),
@@ -881,23 +884,25 @@ def system(draw, nmax, cmax, allow_bnone=False, force_prec=None):
 
 
 @st.composite
-def controller(draw, n, cond_exp, kinds=("gn", "gn", "ginf", "de", "ade")):
+def controller(draw, n, cond_exp, kinds=("de", "gn", "ginf", "ade", "gn")):
     kind = draw(st.sampled_from(list(kinds)))
-    lvl = draw(st.sampled_from([1, 1, 2, 3]))
-    e = draw(st.one_of(st.integers(1, 24), st.integers(1, 44)))
+    lvl = draw(st.sampled_from([2, 1, 3, 1]))
+    e = draw(st.sampled_from(EXPONENTS))
     ic = {"kind": kind, "level": lvl}
     if kind == "gn":
-        which = draw(st.sampled_from(["abs", "rel", "both"]))
+        which = draw(st.sampled_from(["rel", "abs", "both"]))
         ic["abs"] = e if which in ("abs", "both") else None
-        ic["rel"] = (e if which == "rel" else draw(st.integers(1, 44))) if which in ("rel", "both") else None
+        ic["rel"] = (e if which == "rel" else draw(st.sampled_from(EXPONENTS))) if which in ("rel", "both") else None
     else:
         ic["tol"] = e
     emax = max(v for v in (ic.get("abs"), ic.get("rel"), ic.get("tol")) if v is not None)
     safe = cond_exp <= 10 and emax <= 24 and (kind != "ginf" or (cond_exp <= 4 and emax <= 16))
-    if safe and draw(st.integers(0, 3)) == 0:
+    if safe and draw(st.integers(0, 3)) == 3:
         ic["limit"] = None
     else:
-        ic["limit"] = draw(st.one_of(st.integers(0, 6), st.integers(0, 3 * n + 20), st.integers(n, 3 * n + 20)))
+        top = 3 * n + 20
+        ic["limit"] = draw(st.one_of(st.integers(0, top).map(lambda k: top - k), st.integers(0, 6).map(lambda k: 6 - k),
+                                     st.integers(1, 12)))
     return ic
 
 
@@ -916,8 +921,8 @@ def cg_recipes(draw, tier):
 
 @st.composite
 def krylov_recipes(draw, tier):
-    s = draw(system(16, 6))
-    s["steps"] = draw(st.integers(1, 8))
+    s = draw(system(16, 6, nmin=draw(st.sampled_from([4, 6, 1, 4]))))
+    s["steps"] = draw(st.sampled_from([5, 4, 3, 6, 8, 2, 1]))
     s["nreset"] = draw(st.one_of(st.integers(1, 6), st.integers(1, 25)))
     return s
 
@@ -927,11 +932,11 @@ def inversion_recipes(draw, tier):
     s = draw(system(40, 12, force_prec=False))
     s["prec"] = None
     s["x0"] = None
-    s["cap"] = draw(st.sampled_from([1, 1, 1, 2, 3, 3, 4, 8, 12, 6, 9, 5, 10, 7, 11, 13, 14]))
-    s["ic"] = draw(controller(s["n"], _cond_exp(s), kinds=("gn", "gn", "gn", "ginf")))
+    s["cap"] = draw(st.sampled_from([1, 2, 3, 4, 8, 12, 6, 9, 1, 5, 10, 7, 11, 13, 14, 3]))
+    s["ic"] = draw(controller(s["n"], _cond_exp(s), kinds=("gn", "ginf", "gn", "gn")))
     if s["ic"]["limit"] is not None and draw(st.integers(0, 2)) > 0:
         s["ic"]["limit"] = 4 * s["n"] + 40
-    ak = draw(st.sampled_from([None, None, "exact", "near", "near"]))
+    ak = draw(st.sampled_from(["near", None, "exact", None, "near"]))
     s["approx"] = None if ak is None else {"kind": ak, "seed": draw(SEED)}
     return s
 
@@ -946,7 +951,7 @@ def status_recipes(draw, tier):
     if draw(st.integers(0, 2)) == 0:
         strict = draw(controller(s["n"], _cond_exp(s)))
         del strict["limit"]
-    start = CONTINUE if (strict is not None or draw(st.integers(0, 3)) > 0) else draw(st.sampled_from([ERROR, CONVERGED]))
+    start = CONTINUE if (strict is not None or draw(st.integers(0, 3)) < 3) else draw(st.sampled_from([ERROR, CONVERGED]))
     s["script"] = {"start": start, "after": draw(st.integers(1, 10)),
                    "final": draw(st.sampled_from([ERROR, ERROR, CONVERGED])), "strict": strict}
     s["nreset"] = draw(st.integers(1, 8))
@@ -954,16 +959,16 @@ def status_recipes(draw, tier):
 
 
 SUBS = [
-    Sub(name="cg_controllers", check=check_cg, strategy=cg_recipes, quick=1600, thorough=60000, shards=16,
+    Sub(name="cg_controllers", check=check_cg, strategy=cg_recipes, quick=12800, thorough=300000, shards=16,
         rule="non-trivial = (n >= 5 and >= 3 iterations) or (preconditioned and >= 1 iteration) or an iteration "
              "index divisible by nreset was reached (residual reset hit)"),
-    Sub(name="krylov_optimality", check=check_krylov, strategy=krylov_recipes, quick=640, thorough=30000, shards=8,
+    Sub(name="krylov_optimality", check=check_krylov, strategy=krylov_recipes, quick=4800, thorough=100000, shards=8,
         rule="non-trivial = n >= 4 and >= 3 iterations were compared with the exact Krylov optimum, each of the "
              "first three steps still gaining energy"),
-    Sub(name="inversion_enabler", check=check_inversion, strategy=inversion_recipes, quick=640, thorough=30000,
+    Sub(name="inversion_enabler", check=check_inversion, strategy=inversion_recipes, quick=3200, thorough=80000,
         shards=8,
         rule="non-trivial = at least one mode is computed iteratively, n >= 3, and (>= 3 iterations or an "
              "approximation/preconditioner is given)"),
-    Sub(name="status_propagation", check=check_status, strategy=status_recipes, quick=480, thorough=20000, shards=8,
+    Sub(name="status_propagation", check=check_status, strategy=status_recipes, quick=1600, thorough=40000, shards=4,
         rule="non-trivial = the controller stopped the run (at start, or after >= 1 iteration) with its own status"),
 ]
